@@ -292,7 +292,7 @@ ADDENDA = {
  "C01": " Focus pools cover schematic TYPE variables, incl. two schematic variables of one name at two schematic types. One extra round of the two instantiation rules alone (action SaturateInst) in the focus configuration: sequents whose derivation already took three rule applications are instantiated.",
  "C02": " The universe also varies the KIND of the args object on every primitive rule, citation counts, aliased item objects and equal twin items, and every check runs through non-global Theory objects (a side theory and a copy snapshot). HISTORY events: one Proof object checked first in a permissive context (global theory, gaps allowed), then - the same object - through the strict routes; judged by the same clauses.",
  "C04": " Also: all candidate steps of C18_Alethe through every veriT rule macro (every intended instance + stride-sampled near misses in quick, all in thorough), the C05 goal universe through the arithmetic macros, histories of `auto` invocations over the code's rule tables, histories of one theorem name whose statement changes, one premise at a time given a hypothesis of its own; clauses NoNewGaps and three clauses on the exported numbering.",
- "C05": " Magnitudes beyond 2^31 are judged with limb big integers (spec/lib/BigInt.tla, itself model-checked); compound natural exponents with truncated subtraction are in the universe. Exact comparison of surds q + sgn(s)*sqrt|s| over limb rationals (spec/C05_Surd.tla, laws model-checked in C05_SurdLaws): comparisons of irrational constants built from rationals and one square root per side are judged, incl. near-equal ones up to 10^120.",
+ "C05": " Magnitudes beyond 2^31 are judged with limb big integers (spec/lib/BigInt.tla, itself model-checked); compound natural exponents with truncated subtraction are in the universe. Exact comparison of surds q + sgn(s)*sqrt|s| over limb rationals (spec/C05_Surd.tla, laws model-checked in C05_SurdLaws): comparisons of irrational constants built from rationals and one square root per side are judged, incl. near-equal ones up to 10^120. Prelude histories: an approximate evaluation of a power before the exact evaluation of the same power in one process.",
  "C06": " C06_Sem gives function equality its extensional meaning, exact sqrt on squares, a sign abstraction for exp/log and a per-goal real grid; histories in one process (fail-then-succeed, open/closed intervals), binder-name clashes, a route where Z3 gives up at once.",
  "C07": " Also proof-step ARGUMENTS for every signature parse_args knows (C07_Args), all unicode/highlight/width settings, and print HISTORIES (C07_History; clause PrintStable); polymorphic leaves under operators and inside list/set literals. Systematic depth-3 family: right-open constructs (if, binders, lambda) as last operand of an operator application in non-final position.",
  "C08": " Histories over several theory objects, declared variables in the constraint family, schematic leaves (also sharing names with ordinary variables) in every family.",
